@@ -29,7 +29,7 @@ def root_alphabet(root):
 def resolve(task):
     """Constructor kwargs and the time lattice of a task."""
     if "table" in task:
-        tab = dict(hm.RIEMANN_TABLE.get(task["table"]) or hm.JWL_TABLE[task["table"]])
+        tab = dict(hm.RIEMANN_TABLE.get(task["table"]) or hm.BND_TABLE.get(task["table"]) or hm.JWL_TABLE[task["table"]])
         t = tab.pop("t")
         c = hm.riemann_mirror(tab) if task["mirror"] else tab
         times = [0.5 * t, t]
